@@ -35,7 +35,8 @@ def repo_clean():
 
 
 def run_check(pid, tier="quick", seed="0"):
-    env = dict(os.environ, VERIF_SEED=seed)
+    env = dict(os.environ, VERIF_SEED=seed, VERIF_EVIDENCE_DIR="/tmp/seeded_evidence")      # (evidence/ keeps the unchanged tree's runs)
+    os.makedirs("/tmp/seeded_evidence", exist_ok=True)
     try:
         code, out = sh([str(VERIF / "check"), pid, "--tier", tier], cwd=VERIF, timeout=3000, env=env)
     except subprocess.TimeoutExpired:
